@@ -4,6 +4,10 @@
                                   into the ascending tag list giving the iteration order used by str() ("-" = ascending)
       →  ok proto=<text> obj=s:<text>|m:<text>;<text>;… sock=<text|N> host=<text|N> port=<int|N> loc=<text|N> str=<text>
        | err <kind>
+       each answer of `p` is followed by " ## " and the same line computed by the SOURCE-DERIVED functions
+       (UriSrc.parseSrc / strSrc around the transcribed _parseLocation / location; "exc <Class>" for a non-PyroError)
+    l <port|N> <text|N>           transcribed URI._parseLocation(location, defaultPort) on a blank instance
+      →  ok sock=<text|N> host=<text|N> port=<int|N|s:text> | err <kind> | exc <Class>
     e <nsPort> <text> <text>      parse both, compare   →  eq 0|1 | err
     i <text>                      int(text)              →  ok <int> | err
     h <nsPort> <text> <op>…       proxy history from Proxy(URI(<text>)): ops  s (send) | c (copy) | u:<text> (uri replaced)
@@ -11,9 +15,11 @@
 -/
 import PyroModel.Uri
 import PyroModel.Gen.C19
+import PyroModel.UriPy
+import PyroModel.UriSrc
 import Driver.Util
 
-open Pyro Pyro.Uri Driver
+open Pyro Pyro.Uri Pyro.UriPy Pyro.UriSrc Driver
 
 def guards : Guards := ⟨Pyro.Gen.C19.guardHost, Pyro.Gen.C19.guardTags⟩
 
@@ -36,6 +42,30 @@ def applyPerm (tags : List Text) (perm : List Nat) : List Text :=
   if perm.isEmpty then tags
   else perm.filterMap (fun i => tags[i]?)
 
+def showExc : Exc → String
+  | .pyro e => "err " ++ showErr e
+  | .valueError => "exc ValueError"
+  | .typeError => "exc TypeError"
+
+def showPortVal : PortVal → String
+  | .none => "N"
+  | .int p => toString p
+  | .str t => "s:" ++ showText t
+
+/-- the `p` line computed by the source-derived functions -/
+def srcLine (np : Nat) (s : Text) (pm : List Nat) : String :=
+  match parseSrc np s with
+  | .error e => showExc e
+  | .ok σ =>
+    let tags := match σ.object with | .set ts => ts | .str _ => []
+    let order := applyPerm tags pm
+    let loc := match Pyro.Gen.C19.locationSrc σ with | .ok l => showOpt l | .error e => showExc e
+    let str := match strSrc σ order with | .ok t => showText t | .error e => showExc e
+    s!"ok proto={showText σ.protocol} obj={showObj σ.object} sock={showOpt σ.sockname} host={showOpt σ.host} port={showPortVal σ.port} loc={loc} str={str}"
+
+def parseOptText (t : String) : Option (Option Text) :=
+  if t == "N" then some none else (parseNatList t).map some
+
 /-- `s` = send, `c` = copy, `u:<text>` = the proxy's uri is replaced by URI(<text>) -/
 def parseProxyOp (np : Nat) (t : String) : Option ProxyOp :=
   if t == "s" then some .send
@@ -53,14 +83,23 @@ def step : List String → String
   | ["p", port, txt, perm] =>
     match port.toNat?, parseNatList txt, parseNatList perm with
     | some np, some s, some pm =>
-      match parse guards np s with
+      (match parse guards np s with
       | .error e => "err " ++ showErr e
       | .ok u =>
         let st := getstate u
         let order := applyPerm u.tagOrder pm
         let portS := match st.port with | none => "N" | some p => toString p
-        s!"ok proto={showText st.protocol} obj={showObj st.object} sock={showOpt st.sockname} host={showOpt st.host} port={portS} loc={showOpt (renderLoc u.loc)} str={showText (render u order)}"
+        s!"ok proto={showText st.protocol} obj={showObj st.object} sock={showOpt st.sockname} host={showOpt st.host} port={portS} loc={showOpt (renderLoc u.loc)} str={showText (render u order)}")
+      ++ " ## " ++ srcLine np s pm
     | _, _, _ => "bad-op"
+  | ["l", port, loc] =>
+    let dp : Option PortVal := if port == "N" then some .none else port.toInt?.map PortVal.int
+    match dp, parseOptText loc with
+    | some d, some l =>
+      (match Pyro.Gen.C19.parseLocationSrc (blank [] (.str [])) l d with
+      | .error e => showExc e
+      | .ok σ => s!"ok sock={showOpt σ.sockname} host={showOpt σ.host} port={showPortVal σ.port}")
+    | _, _ => "bad-op"
   | ["e", port, a, b] =>
     match port.toNat?, parseNatList a, parseNatList b with
     | some np, some s1, some s2 =>
